@@ -7,7 +7,8 @@ from .common import flat_op, flat_sx, fr, split_op, split_sx, wf_dist_fail
 
 RULE = ("base rates on X (zero entries included) x tables mixing vacuous, dogmatic and partially informative "
         "conditionals, |X| 2..4, |Y| 2..3, dyadic grids and random floats, including tables whose only informative "
-        "conditionals sit at zero-base-rate values of X and all-vacuous tables; mbr, deduce, deduce_with (fallback "
+        "conditionals sit at zero-base-rate values of X, all-vacuous tables, tables of tiny total weight (down to the bottom "
+        "of the exponent range); mbr, deduce, deduce_with (fallback "
         "flag observed through the closure) and abduce, every container family and call style, f32/f64; non-trivial "
         "= at least one non-vacuous conditional")
 NONE_KINDS = ("NONE",)
@@ -24,6 +25,50 @@ def table(rng, ty, nx, ny, mode):
             kind = "vac" if r < 3 else "dog" if r < 5 else "part"
             cs.append(G.grid_simplex(rng, ny, rng.choice([8, 16, 64]), kind))
     return cs
+
+
+SPECIAL = ["all_vacuous", "informative_at_zero_base_rate", "tiny_total_weight", "extreme_tiny_weight"]
+
+
+def special_table(rng, ty, nx, ny, den, r, cs=None):
+    """(ax, conditionals, tag): tables at the edges of mbr's domain; r indexes SPECIAL"""
+    if cs is None:
+        cs = table(rng, ty, nx, ny, "grid")
+    if r == 0:
+        return G.grid_dist(rng, nx, den), [([0.0] * ny, 1.0)] * nx, SPECIAL[0]
+    if r == 1:
+        # informative conditionals only where the base rate is 0
+        k = rng.below(nx)
+        ax = [0.0] * nx
+        rest = [j for j in range(nx) if j != k]
+        for j, v in zip(rest, G.grid_dist(rng, len(rest), den, positive=True)):
+            ax[j] = v
+        cs = [c if j == k else ([0.0] * ny, 1.0) for j, c in enumerate(cs)]
+        if cs[k][1] == 1.0:
+            cs[k] = G.grid_simplex(rng, ny, den, "part")
+        return ax, cs, SPECIAL[1]
+    k = rng.below(nx)
+    rest = G.grid_dist(rng, nx - 1, den, positive=True) if nx > 1 else []
+    if r == 2:
+        # tiny but positive total weight: the only informative conditional has a tiny base rate
+        # and / or tiny belief masses
+        t = num.rnd(ty, rng.choice([1e-9, 1e-12, 1e-20, 1e-30] if ty == "f64" else [1e-4, 1e-6, 1e-10, 1e-20]))
+        small = num.rnd(ty, rng.choice([1.0, 1e-3, 1e-8] if ty == "f64" else [1.0, 1e-3]))
+        bb = [0.0] * ny
+        bb[rng.below(ny)] = small
+    else:
+        # total weight near the bottom of the exponent range (its reciprocal overflows); powers of two and short
+        # dyadic masses, so that every product is exact even where it is subnormal
+        t = 2.0 ** -(rng.choice([1010, 1018, 1020]) if ty == "f64" else rng.choice([110, 118, 120]))
+        q = 2.0 ** -(rng.choice([4, 8, 10]) if ty == "f64" else rng.choice([4, 6, 8]))
+        bb = [q * rng.below(4) for _ in range(ny)]
+        if sum(bb) == 0:
+            bb[rng.below(ny)] = q
+        small = sum(bb)
+    ax = list(rest)
+    ax.insert(k, t)
+    cs = [(bb, num.rnd(ty, 1.0 - small)) if j == k else ([0.0] * ny, 1.0) for j in range(nx)]
+    return ax, cs, SPECIAL[r]
 
 
 def trivial(c):
@@ -45,34 +90,9 @@ def gen(rng, tier):
                     cs = table(rng, ty, nx, ny, mode)
                     ax = G.float_dist(rng, ty, nx, positive=False) if mode == "float" else G.grid_dist(rng, nx, den)
                     tag = mode
-                    r = rng.below(8)
-                    if r == 0:
-                        cs = [([0.0] * ny, 1.0)] * nx
-                        tag = "all_vacuous"
-                    elif r == 1:
-                        # informative conditionals only where the base rate is 0
-                        k = rng.below(nx)
-                        ax = [0.0] * nx
-                        rest = [j for j in range(nx) if j != k]
-                        for j, v in zip(rest, G.grid_dist(rng, len(rest), den, positive=True)):
-                            ax[j] = v
-                        cs = [c if j == k else ([0.0] * ny, 1.0) for j, c in enumerate(cs)]
-                        if cs[k][1] == 1.0:
-                            cs[k] = G.grid_simplex(rng, ny, den, "part")
-                        tag = "informative_at_zero_base_rate"
-                    elif r == 2:
-                        # tiny but positive total weight: the only informative conditional has a tiny base rate
-                        # and / or tiny belief masses
-                        k = rng.below(nx)
-                        t = num.rnd(ty, rng.choice([1e-9, 1e-12, 1e-20, 1e-30] if ty == "f64" else [1e-4, 1e-6, 1e-10, 1e-20]))
-                        rest = G.grid_dist(rng, nx - 1, den, positive=True) if nx > 1 else []
-                        ax = list(rest)
-                        ax.insert(k, t)
-                        small = num.rnd(ty, rng.choice([1.0, 1e-3, 1e-8] if ty == "f64" else [1.0, 1e-3]))
-                        bb = [0.0] * ny
-                        bb[rng.below(ny)] = small
-                        cs = [(bb, num.rnd(ty, 1.0 - small)) if j == k else ([0.0] * ny, 1.0) for j in range(nx)]
-                        tag = "tiny_total_weight"
+                    r = rng.below(9)
+                    if r < 4:
+                        ax, cs, tag = special_table(rng, ty, nx, ny, den, r, cs)
                     gid += 1
                     cn = sum((flat_sx(c) for c in cs), [])
                     fam = rng.choice(FAMS)
